@@ -16,7 +16,7 @@ TECHNIQUE = ("Coq proof over a per-synapse model of the event-time bookkeeping (
 LEVEL_TEXT = ("Machine-checked proof (Coq, reals) that, for every spike history, batch, receptive field, per-step delay sequence and "
               "hyperparameter choice: the monitors hold the time since the true most recent spike and at every step of every run "
               "each trainer's forward is applied to t_delta = t_post_last - t_pre_last - d(t) (NaN, hence zero parts, until both "
-              "sides have spiked) [cell_step_true_times, monitor_true_times, no_change_before_both_spiked]; the (pos, neg) parts "
+              "sides have spiked) [cell_step_true_times, cell_step_ps_true_times (per-element tensor-valued kernel kwargs), monitor_true_times, no_change_before_both_spiked]; the (pos, neg) parts "
               "of DelayAdjustedSTDP/STDPD/MSTDP/MSTDPD (scalar and per-sample reward) net to the documented two-branch rule with "
               "the causal branch taken iff t_delta >= 0 [rule_formula, run_rule_formula, branch_iff_tdelta_nonneg]; kernel STDP "
               "with the generated exp_stdp_post/pre_kernel accumulates the same parts as the dedicated rules for sum/mean "
@@ -164,8 +164,43 @@ def gen_trainer(rng, cls):
     lr_a, lr_b = rng.choice(LRS), rng.choice(LRS)
     tc_a, tc_b = rng.choice(TCS), rng.choice(TCS)
     if cls in KER:
-        return {"cls": cls, "red": red, "lr_post": lr_a, "tc_post": tc_a, "lr_pre": lr_b, "tc_pre": tc_b}
-    return {"cls": cls, "red": red, "lr_pos": lr_a, "lr_neg": lr_b, "tc_pos": tc_a, "tc_neg": tc_b}
+        return assign_types(rng, {"cls": cls, "red": red, "lr_post": lr_a, "tc_post": tc_a, "lr_pre": lr_b, "tc_pre": tc_b})
+    return assign_types(rng, {"cls": cls, "red": red, "lr_pos": lr_a, "lr_neg": lr_b, "tc_pos": tc_a, "tc_neg": tc_b})
+
+
+HP_KEYS = {"ded": ["lr_pos", "lr_neg", "tc_pos", "tc_neg"], "ker": ["lr_post", "tc_post", "lr_pre", "tc_pre"]}
+def is_f32(v):
+    import struct
+    return struct.unpack("f", struct.pack("f", v))[0] == v
+
+
+def type_tag(rng, v, kernel_kwarg):
+    """one of the TYPES a hyperparameter may be supplied in: python float / int, numpy scalars, 0-d tensors (and
+    1-element tensors for kernel keyword arguments); integer types only for integral values, float32 only when exact"""
+    tags = ["float", "float", "np64", "t0"]
+    if float(v).is_integer():
+        tags += ["int", "npi", "t0i"]
+    if is_f32(v):
+        tags.append("np32")
+    if kernel_kwarg:
+        tags += ["t0", "t1"]
+    return rng.choice(tags)
+
+
+def assign_types(rng, t):
+    kernel = t["cls"] in KER
+    t["types"] = {k: type_tag(rng, t[k], kernel) for k in HP_KEYS["ker" if kernel else "ded"] if not isinstance(t[k], list)}
+    return t
+
+
+def per_element(rng, t, nparam, which=("post", "pre")):
+    """tensor-valued kernel keyword arguments shaped like the parameter: every element its own learning rate / time constant"""
+    for w in which:
+        if rng.random() < 0.7:
+            t["lr_" + w] = [rng.choice(LRS) for _ in range(nparam)]
+        if rng.random() < 0.5:
+            t["tc_" + w] = [rng.choice(TCS) for _ in range(nparam)]
+    return t
 
 
 def gen_steps(rng, case, g, T, persample=None):
@@ -193,6 +228,14 @@ def gen_steps(rng, case, g, T, persample=None):
             sig = lambda: rng.choice([-2.0, -1.0, -0.5, -0.25, 0.0, 0.25, 0.5, 1.0, 1.5])   # noqa: E731
             st["signal"] = [sig() for _ in range(B)] if persample else sig()
             st["scale"] = rng.choice([1.0, 1.0, 0.5, 2.0, -1.0])
+            # the reward and the scale in every scalar TYPE the signature `float | torch.Tensor` / `float` admits: python
+            # float / int, numpy float64 (a Python float by isinstance) / float32 / int64; 0-d tensors for the scale
+            # (a 0-d tensor REWARD takes the per-sample branch, whose documented shape is B: not generated)
+            if not persample:
+                tags = ["float", "float", "np64", "np64", "np32"] + (["int", "npi"] if float(st["signal"]).is_integer() else [])
+                st["signal_type"] = rng.choice(tags)
+            tags = ["float", "float", "np64", "np32", "t0"] + (["int", "npi", "t0i"] if float(st["scale"]).is_integer() else [])
+            st["scale_type"] = rng.choice(tags)
         st["update"] = bool(rng.random() < 0.2) and not (cls == "KernelSTDP" and has_delay)
         if st["update"] and has_delay and cls in DELAYPARAM and rng.random() < 0.5:
             cur = None   # the delay is now whatever the rule made it: set it explicitly again at the next step
@@ -207,6 +250,8 @@ def gen_case(rng, cls=None, conv_ok=True):
     case = {"kind": "cell", "B": rng.randint(1, 3), "conn": gen_conn(rng, dt, want_delay, conv_ok),
             "trainer": gen_trainer(rng, cls)}
     g = geometry(case)
+    if cls in KER and rng.random() < 0.35:
+        assign_types(rng, per_element(rng, case["trainer"], g["nparam"]))
     case["steps"] = gen_steps(rng, case, g, rng.randint(1, 14))
     return case
 
@@ -265,6 +310,13 @@ def gen_group(rng, gid, cls=None, persample=None):
                 eff["lr_pre"], eff["tc_pre"] = own["lr_pre"], own["tc_pre"]
             else:
                 eff[k] = own[k]
+        eff.pop("types", None)
+        if cls in KER:
+            nparam = geometry({"conn": conn, "trainer": eff})["nparam"]
+            which = tuple(w for w in ("post", "pre") if w in keys)
+            if which and rng.random() < 0.4:
+                per_element(rng, eff, nparam, which)
+        assign_types(rng, eff)
         if cls in KER and (zero_k or rng.random() < 0.3):
             keys = keys + ["kernels"]
         if cls == "KernelSTDP" and (dflt_delayed or rng.random() < 0.3):
@@ -281,6 +333,10 @@ def gen_group(rng, gid, cls=None, persample=None):
         if cells and cls in THREE:          # the reward signal is an argument of the one trainer call
             for st, st0 in zip(case["steps"], cells[0]["steps"]):
                 st["signal"], st["scale"] = copy.deepcopy(st0["signal"]), st0["scale"]
+                for k in ("signal_type", "scale_type"):
+                    st.pop(k, None)
+                    if k in st0:
+                        st[k] = st0[k]
         cells.append(case)
     return cells
 
@@ -315,6 +371,8 @@ def gen_pair(rng):
         else:
             b["trainer"] = {"cls": "KernelSTDP", "red": red, "lr_post": ta["lr_pos"], "tc_post": ta["tc_pos"],
                             "lr_pre": ta["lr_neg"], "tc_pre": ta["tc_neg"]}
+    b["trainer"].pop("types", None)
+    assign_types(rng, b["trainer"])
     return what, a, b
 
 
@@ -330,6 +388,14 @@ def q_nat_pairs(syn):
 
 def q_zlist(bits):
     return "[" + "; ".join(str(int(b)) for b in bits) + "]%Z"
+
+
+def has_lists(t):
+    return any(isinstance(v, list) for v in t.values())
+
+
+def element_trainer(t, e):
+    return {k: (v[e] if isinstance(v, list) else v) for k, v in t.items()}
 
 
 def q_trainer(t):
@@ -362,6 +428,10 @@ def q_case(case, g, obs):
     for st, o in zip(case["steps"], obs):
         dl = st["delay_seen"] if st["delay_seen"] is not None else [0.0] * g["nparam"]
         steps.append(f"step {q_zlist(o)} {q_zlist(st['post'])} {F.coq_list([F.coq_float(d) for d in dl])} {q_signal(st, cls)}")
+    if has_lists(case["trainer"]):
+        trs = F.coq_list([q_trainer(element_trainer(case["trainer"], e)) for e in range(g["nparam"])])
+        return (f"run_case_ps {case['B']} {g['npre']} {g['npost']} {q_nat_pairs(g['syn'])} {F.coq_float(case['conn']['dt'])} "
+                f"{REDK[case['trainer']['red']]}%Z {trs} {F.coq_list(steps)}")
     return (f"run_case {case['B']} {g['npre']} {g['npost']} {q_nat_pairs(g['syn'])} {F.coq_float(case['conn']['dt'])} "
             f"{REDK[case['trainer']['red']]}%Z {q_trainer(case['trainer'])} {F.coq_list(steps)}")
 
@@ -438,7 +508,10 @@ def expected_parts(case, g, k, last_pre, last_post, delays, st):
     if cls in KER and red == "amax":
         return None       # max over the batch does not commute with the sign split of the kernel trainers
     pos, neg = [], []
+    el = lambda v, e: v[e] if isinstance(v, list) else v     # noqa: E731  (tensor-valued kernel kwargs: one per element)
+    hyper = (lr_c, tc_c, lr_a, tc_a)
     for e, pairs in enumerate(g["syn"]):
+        lr_c, tc_c, lr_a, tc_a = (el(v, e) for v in hyper)
         d = 0.0 if cls == "KernelSTDP" else delays[e]
         sc, sa = [], []          # per sample: causal / anti-causal sums over the receptive field
         ambiguous = False        # a branch decision within rounding of the boundary (only off the dyadic grid): not judged
@@ -809,6 +882,9 @@ def run(ctx):
                  "scalar and per-sample reward signals; most cells are run in groups of 2-3 under ONE trainer object and registered with "
                  "register_cell keyword overrides (learning rates incl. sign changes, time constants, kernels and their kwargs, "
                  "batch_reduction, delayed, inplace, interp_tolerance) that differ between the cells and from the trainer's "
+                 "constructor defaults; every hyperparameter (trainer-level, override, kernel kwarg) is supplied in a randomly chosen "
+                 "accepted type (python float/int, numpy float64/float32/int64, 0-d float/int tensors, 1-element tensors and "
+                 "per-parameter-element tensors for kernel kwargs, pre and post values differing); relative to the trainer's "
                  "constructor defaults, the oracle using each cell's effective hyperparameters; pairs of cells for the two agreement statements; the two half kernels on "
                  "boundary arguments; non-trivial = >=2 steps and >=2 non-zero parts"
                  + ("" if quick else "; plus every pre/post history of length <= 4 on a 1x1 cell for 4 trainers")),
@@ -822,7 +898,15 @@ def run(ctx):
         "overridden_cells_by_trainer": dict(Counter(c["trainer"]["cls"] for c in cells if c.get("override_keys"))),
         "overridden_cells_lr_sign_differs_from_default": sum(
             1 for c in cells if c.get("override_keys") and any(
-                (c["trainer"][k] >= 0) != (c["defaults"][k] >= 0) for k in c["trainer"] if k.startswith("lr_"))),
+                any((x >= 0) != (c["defaults"][k] >= 0) for x in (c["trainer"][k] if isinstance(c["trainer"][k], list)
+                                                                    else [c["trainer"][k]]))
+                for k in c["trainer"] if k.startswith("lr_"))),
+        "reward_signal_type_distribution": dict(Counter(st["signal_type"] for c in cells for st in c["steps"]
+                                                        if "signal_type" in st)),
+        "hyperparameter_type_distribution": dict(Counter(
+            tag for c in cells for t in ([c["trainer"]] + ([c["defaults"]] if c.get("defaults") else []))
+            for tag in (t.get("types") or {}).values())),
+        "cells_with_per_element_kernel_kwargs": sum(1 for c in cells if has_lists(c["trainer"])),
         "steps_with_a_silent_unit": silent_steps, "steps_all_units_spiked": active_steps,
         "observation_amax_pairs": amax_obs, "tdelta_statistics": dict(STATS),
         "samples": [strip(c) for c in cells[:2]],
